@@ -17,7 +17,7 @@ pub fn main(args: &[String]) {
     let root = format!("{}.fs", out);
     let _ = std::fs::remove_dir_all(&root); std::fs::create_dir_all(&root).unwrap();
     std::env::set_current_dir(&root).unwrap();
-    let nprog = if thorough { corp.len() } else { 220 };
+    let nprog = if thorough { corp.len() } else { 450 };
     let per = if thorough { 40 } else { 8 };
     let mut jobs: Vec<(String, usize, u8, u8, String)> = vec![];  // (text, position, kind 0=insert 1=delete, via include, deleted text)
     for p in 0..nprog {
